@@ -23,6 +23,8 @@ var c05ApplyPages = []string{
 	`<div KEY="zq9"><strong KEY="zq9">` + c05Long + `</strong></div><p KEY="zq9"><span KEY="zq9">` + c05Long + `</span></p>`,
 	// 4 fallback markup inside running text, lists, quote, pre
 	`<p KEY="zq9">` + c05Long + ` <noscript><i KEY="zq9">x</i><script>var c=1</script></noscript></p><ul KEY="zq9"><li KEY="zq9">` + c05Long + `</li></ul><blockquote KEY="zq9">` + c05Long + `</blockquote><pre KEY="zq9">` + c05Long + `</pre>`,
+	// 6 attribute values that try to break out of the quoting of re-emitted tags
+	`<p>` + c05Long + `</p><ol start='3" KEY="zq9' type='a" KEY="zq9' reversed><li value='2" KEY="zq9'>` + c05Long + `</li></ol><ul type='disc" KEY="zq9'><li>` + c05Long + `</li></ul><blockquote cite='u" KEY="zq9'>` + c05Long + `</blockquote><pre title='t" KEY="zq9'>` + c05Long + `</pre>`,
 	// 5 media and a recognised embed
 	`<p>` + c05Long + `</p><img src="i.png" KEY="zq9"><video src="v.mp4" KEY="zq9"><source src="w.mp4" KEY="zq9"></video><iframe src="https://www.youtube.com/embed/abc" KEY="zq9"></iframe><p>` + c05Long + `</p>`,
 }
